@@ -165,8 +165,8 @@ def get_message(solutions: Queue, processes: List[Any], completed: List[bool]) -
 
 
 def sum_stats(stats: List[Any], index: int) -> int:
-    return sum(int(s[index]) for s in stats)
+    return sum(int(s[index]) for s in stats if s is not None)  # nothing has been received yet from some processes
 
 
 def max_stats(stats: List[Any], index: int) -> int:
-    return max(int(s[index]) for s in stats)
+    return max((int(s[index]) for s in stats if s is not None), default=0)
